@@ -140,6 +140,15 @@ func genSwarm(r *rand.Rand, id int, maxPieces int) swarmCfg {
 		}
 		c.Agents = append(c.Agents, a)
 	}
+	// A leecher must never have ALL its connection slots taken by leechers that
+	// may hold no piece (they dial each other too): then only kraken's idle-conn
+	// churn could get it to a seeder and convergence becomes a matter of minutes
+	// and of who dials first. max_conns >= number of other agents + 1.
+	for i := range c.Agents {
+		if c.Agents[i].MaxConns < na {
+			c.Agents[i].MaxConns = na
+		}
+	}
 	// at least one agent stays to be judged
 	c.Agents[r.Intn(na)].StopAfter = -1
 	c.SecondSeeder = r.Intn(2) == 0
@@ -151,8 +160,10 @@ func genSwarm(r *rand.Rand, id int, maxPieces int) swarmCfg {
 	c.CorruptFrac = 10 + r.Intn(80)
 	c.SeederMaxConn = 2 + r.Intn(4)
 	c.AnnounceMs = 100 + r.Intn(150)
-	c.ConnTTIMs = 1500 + r.Intn(1500)
-	c.BlacklistMs = 300 + r.Intn(1200)
+	// idle-connection churn on the harness's time scale: a useless conn is dropped
+	// within about a second and stays blacklisted over several announce rounds
+	c.ConnTTIMs = 1000 + r.Intn(1000)
+	c.BlacklistMs = 1000 + r.Intn(1000)
 	c.PieceTimeoutMs = 500 + r.Intn(1000)
 	order := []string{"o"}
 	if c.SecondSeeder {
@@ -1005,7 +1016,7 @@ func firstDiff(a, b []byte) int {
 
 func TestC19(t *testing.T) {
 	run := ev.Start(t, "C19", "exploration",
-		"PRNG-generated swarms: blob 0 B-2 MiB, piece length 1 B-256 KiB (piece count capped), 2-6 real agent schedulers with PRNG pipeline limits 1-8, max conns 1-5, endgame on/off, both piece policies, PRNG join order and delays, "+
+		"PRNG-generated swarms: blob 0 B-2 MiB, piece length 1 B-256 KiB (piece count capped), 2-6 real agent schedulers with PRNG pipeline limits 1-8, max conns 1-5 but never fewer than the number of agents (a leecher's slots cannot all be held by piece-less leechers), endgame on/off, both piece policies, PRNG join order and delays, "+
 			"agents leaving after a PRNG number of received pieces, a second seeder that leaves, one corrupting peer (all / some / first-requests-only pieces flipped); a real origin scheduler stays reachable. "+
 			"A case is one swarm; non-trivial when >=1 agent's Download returned nil and its cache was byte-compared AND >=1 fault took effect (a corrupted piece was served, or a peer left while others were still downloading); distinct = distinct configuration.")
 	defer run.Finish()
